@@ -152,35 +152,90 @@ func c34RunOne(c *fw.Ctx, run int64) {
 			defer wg.Done()
 			rr := c.Rng(fmt.Sprintf("c34cl%d", ci), seed)
 			for k := 0; k < nops; k++ {
-				ni := rr.Intn(len(ids))
-				rec := c34Rec{Client: ci, In: c34In{Node: ids[ni].String()}}
-				if rr.Intn(2) == 0 {
-					rec.In.Write = true
-					rec.In.Val = run*10_000_000 + int64(ci)*100_000 + int64(k) + 1 // unique per history
-					rec.Call = int64(time.Since(t0))
-					res, err := cl.Write(ctx, &ua.WriteRequest{NodesToWrite: []*ua.WriteValue{{NodeID: ids[ni], AttributeID: ua.AttributeIDValue,
-						Value: &ua.DataValue{EncodingMask: ua.DataValueValue, Value: ua.MustVariant(rec.In.Val)}}}})
-					rec.Ret = int64(time.Since(t0))
-					if err != nil || len(res.Results) != 1 {
-						rec.Open = true // unknown outcome: stays open to the end of the history
-					} else if res.Results[0] != ua.StatusOK {
-						continue // refused: no effect claimed, not part of the history of successful operations
+				// one request carries 1-3 operations of the same kind on distinct nodes; they share call and return
+				// time; now and then an entry for a node or namespace that does not exist sits between them
+				write := rr.Intn(2) == 0
+				nent := 1
+				if rr.Intn(3) == 0 {
+					nent = 1 + rr.Intn(len(ids))
+				}
+				perm := rr.Perm(len(ids))[:nent]
+				bogusAt := -1
+				if rr.Intn(4) == 0 {
+					bogusAt = rr.Intn(nent + 1)
+				}
+				bogus := []*ua.NodeID{ua.NewStringNodeID(77, "nowhere"), ua.NewStringNodeID(ids[0].Namespace(), "no-such-node")}[rr.Intn(2)]
+				var recsOf []c34Rec
+				var wvals []*ua.WriteValue
+				var rvals []*ua.ReadValueID
+				var isReal []int // index into recsOf per request entry, -1 for the bogus one
+				for e := 0; e <= nent; e++ {
+					if e == bogusAt {
+						if write {
+							wvals = append(wvals, &ua.WriteValue{NodeID: bogus, AttributeID: ua.AttributeIDValue, Value: &ua.DataValue{EncodingMask: ua.DataValueValue, Value: ua.MustVariant(int64(-5))}})
+						} else {
+							rvals = append(rvals, &ua.ReadValueID{NodeID: bogus, AttributeID: ua.AttributeIDValue})
+						}
+						isReal = append(isReal, -1)
+					}
+					if e == nent {
+						break
+					}
+					ni := perm[e]
+					rec := c34Rec{Client: ci, In: c34In{Node: ids[ni].String(), Write: write}}
+					if write {
+						rec.In.Val = run*10_000_000 + int64(ci)*100_000 + int64(k)*10 + int64(e) + 1 // unique per history
+						dv := &ua.DataValue{EncodingMask: ua.DataValueValue, Value: ua.MustVariant(rec.In.Val)}
+						// clients stamp their writes with their own, unsynchronised clocks
+						if rr.Intn(2) == 0 {
+							dv.EncodingMask |= ua.DataValueSourceTimestamp
+							dv.SourceTimestamp = time.Unix(1_700_000_000+int64(rr.Intn(100000)), 0).UTC()
+						}
+						wvals = append(wvals, &ua.WriteValue{NodeID: ids[ni], AttributeID: ua.AttributeIDValue, Value: dv})
+					} else {
+						rvals = append(rvals, &ua.ReadValueID{NodeID: ids[ni], AttributeID: ua.AttributeIDValue})
+					}
+					isReal = append(isReal, len(recsOf))
+					recsOf = append(recsOf, rec)
+				}
+				call := int64(time.Since(t0))
+				var keep []c34Rec
+				if write {
+					res, err := cl.Write(ctx, &ua.WriteRequest{NodesToWrite: wvals})
+					ret := int64(time.Since(t0))
+					for ei, ri := range isReal {
+						if ri < 0 {
+							continue
+						}
+						rec := recsOf[ri]
+						rec.Call, rec.Ret = call, ret
+						if err != nil || res == nil || len(res.Results) != len(wvals) {
+							rec.Open = true // unknown outcome: stays open to the end of the history
+						} else if res.Results[ei] != ua.StatusOK {
+							continue // refused: no effect claimed
+						}
+						keep = append(keep, rec)
 					}
 				} else {
-					rec.Call = int64(time.Since(t0))
-					res, err := cl.Read(ctx, &ua.ReadRequest{NodesToRead: []*ua.ReadValueID{{NodeID: ids[ni], AttributeID: ua.AttributeIDValue}}})
-					rec.Ret = int64(time.Since(t0))
-					if err != nil || len(res.Results) != 1 || res.Results[0].Value == nil {
-						continue // a failed read observed nothing
+					res, err := cl.Read(ctx, &ua.ReadRequest{NodesToRead: rvals})
+					ret := int64(time.Since(t0))
+					if err == nil && res != nil && len(res.Results) == len(rvals) {
+						for ei, ri := range isReal {
+							if ri < 0 || res.Results[ei].Value == nil {
+								continue
+							}
+							v, ok := res.Results[ei].Value.Value().(int64)
+							if !ok {
+								continue
+							}
+							rec := recsOf[ri]
+							rec.Call, rec.Ret, rec.Out = call, ret, v
+							keep = append(keep, rec)
+						}
 					}
-					v, ok := res.Results[0].Value.Value().(int64)
-					if !ok {
-						continue
-					}
-					rec.Out = v
 				}
 				mu.Lock()
-				recs = append(recs, rec)
+				recs = append(recs, keep...)
 				mu.Unlock()
 				if rr.Intn(4) == 0 {
 					time.Sleep(time.Duration(rr.Intn(300)) * time.Microsecond)
@@ -233,7 +288,7 @@ func init() {
 	fw.Register("C34", fw.Spec{
 		Plan: func(tier string) fw.Plan {
 			p := fw.Plan{Batches: 8, TimeoutS: 900, MinNontrivial: 20, Level: "exploration",
-				Rule:        "histories: 2-8 real clients x 30-60 operations (Read / Write of a unique Int64) over 1-3 shared variable nodes of the real server (node namespace or map namespace), call and return stamped with one monotonic clock at the client API boundary; each history is checked by porcupine against a register-per-node model (partitioned by node, 60 s checker cap, timeout = inconclusive); distinct = histories in which operations of different clients on the same node overlapped in time",
+				Rule:        "histories: 2-8 real clients x 30-60 requests, each carrying 1-3 operations (Read / Write of a unique Int64, half of the writes with a source timestamp from an unsynchronised clock, a quarter of the requests with an entry for a node or namespace that does not exist in between) over 1-3 shared variable nodes of the real server (node namespace or map namespace), call and return stamped with one monotonic clock at the client API boundary; each history is checked by porcupine against a register-per-node model (partitioned by node, 60 s checker cap, timeout = inconclusive); distinct = histories in which operations of different clients on the same node overlapped in time",
 				Assumptions: []string{"client and server share one process and clock; the register model's initial value is the node's initial value 0"}}
 			if tier == "thorough" {
 				p.Batches, p.TimeoutS, p.MinNontrivial = 16, 3400, 1000
